@@ -37,6 +37,14 @@ def unit_ops(chk):
                 n = min(3 * (P + 1) + 5, 300 if quick else 1500) if P >= 0 else 40
                 ops.append("RUN %d %d %d %d" % (P, refresh, rc, n))
                 meta.append(("RUN", P, refresh, rc, n))
+    # periods beyond the 1024 cap of the elapsed-IDR counters next to the period counter (seeded change C19-1: period counter clipped at
+    # MAX_ELAPSED_IDR_COUNT): the stream must be longer than two periods to see the second and third intra picture
+    for P in (1023, 1024, 1025, 1029, 2047) + (() if quick else (4095, 10000)):
+        for refresh in (1, 2):
+            for rc in (0, 1):
+                n = 2 * (P + 1) + 3
+                ops.append("RUN %d %d %d %d" % (P, refresh, rc, n))
+                meta.append(("RUN", P, refresh, rc, n))
     # picture by picture: standard flags, then fuzzed flags (application-forced types, scene change) and out-of-domain refresh values
     for rep in range(30 if quick else 300):
         P = r.choice([-1, 0, 1, 2, 3, 4, 7, 8, 15, 31, r.range(1, 60)])
